@@ -507,12 +507,31 @@ def const_str_of(fn, op, depth=0):
         return None
 
 
+def promoted_const(fn, idx):
+    """the single constant a promoted body evaluates to (`_0 = &_1; _1 = const X`), else None"""
+    pr = fn.raw.get("promoted", [])
+    if idx >= len(pr):
+        return None
+    consts = []
+    for blk in pr[idx]["blocks"]:
+        for s in blk["stmts"]:
+            if s["k"] == "assign":
+                for o in rv_operands(s["rv"]):
+                    if o["k"] == "const":
+                        consts.append(o)
+    return consts[0] if len(consts) == 1 else None
+
+
 def const_of(fn, op, depth=0):
-    """constant operand (the raw const dict) after following copies / reborrows"""
+    """constant operand (the raw const dict) after following copies / reborrows / promoteds"""
     if depth > 8:
         return None
     c = op_const(op)
     if c is not None:
+        if "promoted" in c and c.get("item") == fn.path.split("::{closure")[0] or (c is not None and "promoted" in c):
+            pc = promoted_const(fn, c["promoted"])
+            if pc is not None:
+                return pc
         return c
     l = op_local(op)
     if l is None:
